@@ -305,10 +305,6 @@ func runC14Strings(ctx *Ctx) {
 			c.want = sv(o.nfc(strings.ReplaceAll(a.AsString(), "\n", "\n"+strings.Repeat(" ", k))))
 		} else {
 			c.wantErr = true
-			if sp.AsBigFloat().Sign() < 0 {
-				c.failSig = "indent-negative-panicerror"
-				o.nfc(a.AsString())
-			}
 		}
 		runGlue(ctx, c)
 	}
